@@ -129,33 +129,11 @@ theorem warm_restored (db : Db) (hasStorage : Addr → Bool) (rpre r0 r : Run) (
 `deduct_caller` + `apply_eip7702_auth_list` + the first frame's `load_account_delegated` / `load_account`;
 `eipPrewarm` is the list of EIP-2929/2930/3651/7702. -/
 
-/-- Berlin … Cancun: when the first frame starts, the model's warm flags are exactly the EIP sets — sender,
-recipient (or created address), precompiles, access list, coinbase from Shanghai. (No delegation designator
-exists before Prague: `hdel`.) -/
+/-- **Berlin … Prague: when the first frame starts, the model's warm flags are exactly the EIP sets** — sender,
+recipient (or created address), precompiles, access list, coinbase from Shanghai, and from Prague the
+authorities and the recipient's delegation target. `hdel`: the delegation target read by
+`load_account_delegated` is the one named in the environment (none before Prague, where no designator exists). -/
 theorem prewarm_set_eq_spec (db : Db) (hasStorage : Addr → Bool) (e : TxEnv) (isCreate : Bool)
-    (hdb : DbOk db hasStorage)
-    (hB : e.spec ≥ Spec.AccessSets.BERLIN) (hP : e.spec < Spec.AccessSets.PRAGUE)
-    (hwf : WF db (JState.new e.spec (fun a => (codePreloaded e).contains a)))
-    (l : Lock)
-    (hrun : lockRun db hasStorage (Lock.init e.spec (fun a => (codePreloaded e).contains a))
-      (codePrewarmOps e isCreate) = some l)
-    (hdel : ∀ s, delegateOf db s e.target = none) :
-    SetsEq (warmSets db l.r.js) (Spec.AccessSets.txInit e).cur := by
-  have hs := sim_run hdb _ (sim_init _ _ hwf) hrun
-  obtain ⟨l1, _, hc⟩ := prewarm_cur e isCreate hrun
-  have hnp : ¬ e.spec ≥ Spec.AccessSets.PRAGUE := Nat.not_le.2 hP
-  have hk := codeKeys_sets e hB
-  simp only [hnp, if_false, addAll_nil] at hk
-  have hd : (if isCreate = true then none else delegateOf db l1.r.js e.target) = none := by
-    cases isCreate <;> simp [hdel]
-  rw [hd] at hc
-  exact SetsEq.trans hs.rel (SetsEq.trans hc hk)
-
-/-- All forks from Berlin: the model's warm flags when the first frame starts are the EIP sets plus — from
-Prague — `BLOCKHASH_STORAGE_ADDRESS`, which `load_accounts` puts into `warm_preloaded_addresses` although it
-is on no EIP list (finding `blockhash-address-prewarmed`). `hdel`: the recipient's delegation target read by
-`load_account_delegated` is the one named in the environment. -/
-theorem prewarm_set_eq_spec_partial (db : Db) (hasStorage : Addr → Bool) (e : TxEnv) (isCreate : Bool)
     (hdb : DbOk db hasStorage) (hB : e.spec ≥ Spec.AccessSets.BERLIN)
     (hwf : WF db (JState.new e.spec (fun a => (codePreloaded e).contains a)))
     (l : Lock)
@@ -163,26 +141,13 @@ theorem prewarm_set_eq_spec_partial (db : Db) (hasStorage : Addr → Bool) (e : 
       (codePrewarmOps e isCreate) = some l)
     (hdel : ∀ s, (if isCreate = true then none else delegateOf db s e.target) =
       (if e.spec ≥ Spec.AccessSets.PRAGUE then e.targetDelegate else none)) :
-    SetsEq (warmSets db l.r.js) ((Spec.AccessSets.txInit e).cur.addAll
-      (if e.spec ≥ Spec.AccessSets.PRAGUE then [Access.addr BLOCKHASH_STORAGE_ADDRESS] else [])) := by
+    SetsEq (warmSets db l.r.js) (Spec.AccessSets.txInit e).cur := by
   have hs := sim_run hdb _ (sim_init _ _ hwf) hrun
   obtain ⟨l1, _, hc⟩ := prewarm_cur e isCreate hrun
   rw [hdel] at hc
   exact SetsEq.trans hs.rel (SetsEq.trans hc (codeKeys_sets e hB))
 
-/-- what the full statement would be: the EIP sets exactly, on every fork from Berlin. It fails from Prague
-(see the counterexample): `load_accounts` pre-warms an address that no EIP lists. -/
-def FullStatementPrewarm : Prop :=
-  ∀ (db : Db) (hasStorage : Addr → Bool) (e : TxEnv) (isCreate : Bool) (l : Lock),
-    DbOk db hasStorage → e.spec ≥ Spec.AccessSets.BERLIN →
-    WF db (JState.new e.spec (fun a => (codePreloaded e).contains a)) →
-    lockRun db hasStorage (Lock.init e.spec (fun a => (codePreloaded e).contains a)) (codePrewarmOps e isCreate) = some l →
-    (∀ s, (if isCreate = true then none else delegateOf db s e.target) =
-      (if e.spec ≥ Spec.AccessSets.PRAGUE then e.targetDelegate else none)) →
-    SetsEq (warmSets db l.r.js) (Spec.AccessSets.txInit e).cur
-
-
-/-! ### the hypotheses are satisfiable; the Prague departure on a concrete transaction -/
+/-! ### the hypotheses are satisfiable -/
 section examples
 
 def exDb : Db := { basic := fun _ => none, storage := fun _ _ => 0, delegate := fun _ => none }
@@ -230,20 +195,19 @@ def exEnv : TxEnv :=
 theorem exEnvRun : (lockRun exDb exHs (Lock.init exEnv.spec (fun a => (codePreloaded exEnv).contains a))
     (codePrewarmOps exEnv false)).isSome = true := by decide
 
-/-- **Departure from the EIP lists (Prague).** On this transaction the code has `BLOCKHASH_STORAGE_ADDRESS`
-warm when the first frame starts, and the EIP-2929/2930/3651/7702 sets do not contain it: the full statement
-is false. (Real transaction: `acctx bh=1 18 20 40 - - - bal:bb bal:bb` in the C34tx stream — the first
-BALANCE of that address is charged 100 instead of 2600.) -/
-theorem prewarm_blockhash_counterexample : ¬ FullStatementPrewarm := by
-  intro hfull
-  have h := hfull exDb exHs exEnv false
-    ((lockRun exDb exHs (Lock.init exEnv.spec (fun a => (codePreloaded exEnv).contains a))
-      (codePrewarmOps exEnv false)).get exEnvRun)
-    exDb_ok (by decide) (exWF _ _) (Option.some_get exEnvRun).symm
-    (fun s => by show delegateOf exDb s exEnv.target = none; exact exDelegate s _)
-  have h1 := h.1 BLOCKHASH_STORAGE_ADDRESS
-  revert h1
-  decide
+/-- every hypothesis of `prewarm_set_eq_spec` holds for this Prague transaction -/
+example : SetsEq (warmSets exDb ((lockRun exDb exHs (Lock.init exEnv.spec (fun a => (codePreloaded exEnv).contains a))
+    (codePrewarmOps exEnv false)).get exEnvRun).r.js) (Spec.AccessSets.txInit exEnv).cur :=
+  prewarm_set_eq_spec exDb exHs exEnv false exDb_ok (by decide) (exWF _ _) _
+    (Option.some_get exEnvRun).symm (fun s => by show delegateOf exDb s exEnv.target = none; exact exDelegate s _)
+
+/-- **Regression (repaired in /repo eeb6165b).** `load_accounts` used to put `BLOCKHASH_STORAGE_ADDRESS`, which is
+on no EIP list, into `warm_preloaded_addresses` from Prague; now that address is cold when the first frame
+starts, as the EIP sets say. (Real transaction: `acctx bh=1 18 20 40 - - - bal:bb bal:bb` must give `2600,100`.) -/
+theorem prewarm_blockhash_regression :
+    (warmSets exDb ((lockRun exDb exHs (Lock.init exEnv.spec (fun a => (codePreloaded exEnv).contains a))
+      (codePrewarmOps exEnv false)).get exEnvRun).r.js).addrs BLOCKHASH_STORAGE_ADDRESS = false ∧
+    (Spec.AccessSets.txInit exEnv).cur.addrs BLOCKHASH_STORAGE_ADDRESS = false := by decide
 
 /-- a Cancun transaction satisfying every hypothesis of `prewarm_set_eq_spec` -/
 def exEnv17 : TxEnv := { exEnv with spec := 17, authorities := [] }
@@ -253,8 +217,8 @@ theorem exEnv17Run : (lockRun exDb exHs (Lock.init exEnv17.spec (fun a => (codeP
 
 example : SetsEq (warmSets exDb ((lockRun exDb exHs (Lock.init exEnv17.spec (fun a => (codePreloaded exEnv17).contains a))
     (codePrewarmOps exEnv17 false)).get exEnv17Run).r.js) (Spec.AccessSets.txInit exEnv17).cur :=
-  prewarm_set_eq_spec exDb exHs exEnv17 false exDb_ok (by decide) (by decide) (exWF _ _) _
-    (Option.some_get exEnv17Run).symm (fun s => exDelegate s _)
+  prewarm_set_eq_spec exDb exHs exEnv17 false exDb_ok (by decide) (exWF _ _) _
+    (Option.some_get exEnv17Run).symm (fun s => by show delegateOf exDb s exEnv17.target = none; exact exDelegate s _)
 
 example : (Spec.AccessSets.txInit exEnv).cur.addrs 0x21 = true ∧ (Spec.AccessSets.txInit exEnv).cur.slots 0x30 5 = true ∧
     (Spec.AccessSets.txInit exEnv).cur.addrs BLOCKHASH_STORAGE_ADDRESS = false := by decide
